@@ -59,7 +59,7 @@ def make_deck_corpus(d, tier):
     cnt = [0]
 
     @seed(20201)
-    @settings(max_examples=150 if tier == "quick" else 400, database=None, deadline=None,
+    @settings(max_examples=80 if tier == "quick" else 400, database=None, deadline=None,
               suppress_health_check=list(HealthCheck), phases=[Phase.generate])
     @given(deckgen.gen_deck(), st.lists(st.integers(0, 65536), min_size=30, max_size=60))
     def g(deck, ints):
@@ -185,7 +185,7 @@ class C20(Check):
                   "re-run three times and keyed by sanitizer kind + top frames inside /repo before it is reported.")
     LEVEL_NOTE = "Trusted: clang's sanitizers as the memory-safety/UB oracle. Throughput-limited; state construction is deep and slow."
     TECHNIQUE = "coverage-guided fuzzing (libFuzzer, fork mode) with structure-aware mutator under ASan+UBSan"
-    BUDGET = {"quick": 50, "thorough": 330}     # seconds per target
+    BUDGET = {"quick": 40, "thorough": 330}     # seconds per target
 
     def binaries(self):
         out = {}
@@ -201,11 +201,11 @@ class C20(Check):
         return r.returncode, r.stdout.decode("latin-1")[-20000:]
 
     def triage(self, exe, path, env):
-        """-> (fails out of 3, signature, stderr)"""
+        """-> (fails out of 3, signature, stderr); an input that passes the first run is not re-run"""
         fails = 0
         sig = None
         err = ""
-        for _ in range(3):
+        for i in range(3):
             try:
                 rc, out = self.run_one(exe, path, env)
             except subprocess.TimeoutExpired:
@@ -214,6 +214,8 @@ class C20(Check):
                 fails += 1
                 sig = signature(out)
                 err = out
+            elif i == 0:
+                break
         return fails, sig, err
 
     def run_custom(self, tier, seed, replay):
